@@ -28,9 +28,6 @@ package influxql
 //@ func (*validateField).Visit
 //@   props C04
 //@   skip visitor of the SELECT field validation; reached through Walk with a dynamic visitor
-//@ func (ErrorValue).Value
-//@   props C07
-//@   skip the error text of a rejected parameter; scan turns it into a BOUNDPARAM token that every parse function rejects
 //@ func (Token).String
 //@   props C04
 //@   skip diagnostic text only
@@ -46,15 +43,6 @@ package influxql
 //@ func MustParseStatement
 //@   props C04
 //@   skip panics on error by design (documented)
-//@ func NewParser
-//@   props C04
-//@   skip constructor; the relation between the io.Reader and the ghost rune stream is an assumption of the Parser contracts
-//@ func NewScanner
-//@   props C04
-//@   skip constructor (see NewParser)
-//@ func newBufScanner
-//@   props C04
-//@   skip constructor (see NewParser)
 //@ func ParseExpr
 //@   props C04
 //@   skip string entry point: wraps (*Parser).ParseExpr, which is under contract; the relation between the string and the rune stream is not modelled
@@ -73,9 +61,6 @@ package influxql
 //@ func isDateTimeString
 //@   props C04
 //@   skip regexp match on a string
-//@ func jsonNumberToValue
-//@   props C07
-//@   skip json.Number conversion (library parsing)
 //@ func newParseError
 //@   props C04
 //@   skip allocation of the error value
